@@ -247,6 +247,7 @@ func cmdCheck(args []string) int {
 		}
 		return false
 	}
+	strictLoopOrdinals = *updateLock
 	if !*updateLock {
 		cfg.Expect = func(name string) bool { return lock[prop][name] && !isFinding(name) }
 	} else {
